@@ -117,24 +117,27 @@ structure StepOK (k : Cfg) (base : Nat) (s : RS) (d : Dec) (N : Nat) (a : RS × 
   io : a.2 = .io → k.env.len < U64 →
     (k.env.lim : Int) < base + b.1.pos ∨ (I64MAX : Int) < b.1.pos - d.pos
   /-- the memory limit: below the need, or the allocator refused, or the surface has more than
-  `isize::MAX` bytes — then the ideal decoder says the same and nothing moved -/
+  `isize::MAX` bytes — then the ideal decoder says the same, nothing moved, and the data section has
+  more than `i64::MAX` bytes -/
   mem : a.2 = .memoryLimitExceeded →
-    s.limit < N ∨ ¬ C06.AllocatorGrants k.env ∨ (b.2 = .memoryLimitExceeded ∧ Sim k base a.1 b.1)
+    s.limit < N ∨ ¬ C06.AllocatorGrants k.env ∨
+      (b.2 = .memoryLimitExceeded ∧ Sim k base a.1 b.1 ∧ I64MAX < total d.iter)
   limit : a.1.limit = s.limit
   /-- the ideal side on its own -/
   st : Static d b
 
 /-- both sides rejected the call with the same error and changed nothing -/
 theorem StepOK.rejected {k : Cfg} {base : Nat} {s : RS} {d : Dec} {N : Nat} (h : Sim k base s d)
-    {r : R} {q : DecRes} (hr : r = ofDecRes q) : StepOK k base s d N (s, r) (d, q) where
+    {r : R} {q : DecRes} (hr : r = ofDecRes q) (hq : q ≠ .memoryLimitExceeded := by first | decide | simp) :
+    StepOK k base s d N (s, r) (d, q) where
   sim := fun _ _ => ⟨hr, h⟩
   io := by
     intro hio
     cases q <;> simp [ofDecRes] at hr <;> rw [hr] at hio <;> cases hio
   mem := by
     intro hm
-    refine Or.inr (Or.inr ⟨?_, h⟩)
-    cases q <;> simp [ofDecRes] at hr <;> rw [hr] at hm <;> first | cases hm | rfl
+    exfalso
+    cases q <;> simp [ofDecRes] at hr <;> first | exact hq rfl | (rw [hr] at hm; cases hm)
   limit := rfl
   st := Static.refl h.inv q
 
@@ -180,7 +183,7 @@ theorem StepOK.bind {k : Cfg} {base : Nat} {s : RS} {d : Dec} {N : Nat} {a : RS 
       rcases H.mem hm with h | h | h
       · exact Or.inl (by rw [← h1.limit]; exact h)
       · exact Or.inr (Or.inl h)
-      · exact Or.inr (Or.inr h)
+      · exact Or.inr (Or.inr ⟨h.1, h.2.1, by rw [← h1.st.tot]; exact h.2.2⟩)
   · have hR : thenR a f = a := by unfold thenR; rw [if_neg ha]
     rw [hR]
     refine ⟨?_, ?_, ?_, h1.limit, hst⟩
@@ -264,12 +267,12 @@ theorem likelyOverflow_eq (f : Fam) (w h : Nat) :
 
 /-- the surface is rejected by `check_likely_overflow`: `MemoryLimitExceeded` on both sides -/
 theorem decode_overflow {k : Cfg} {base : Nat} {s : RS} {d : Dec} (h : Sim k base s d) (c : Colour)
-    (call : Call) (N : Nat) (hplan : plan k.fam c call = .error .memLimit) :
+    (call : Call) (N : Nat) (hplan : plan k.fam c call = .error .memLimit) (hbig : I64MAX < total d.iter) :
     StepOK k base s d N (finish s (decodeCall k c call s)) (d, .memoryLimitExceeded) := by
   have hd : decodeCall k c call s = (.memoryLimitExceeded, s.pos) := by
     unfold decodeCall; rw [hplan]; rfl
   rw [hd, finish_err (by simp)]
-  exact ⟨fun _ hm => absurd rfl hm, (fun hio => by cases hio), fun _ => Or.inr (Or.inr ⟨rfl, h.same⟩), rfl,
+  exact ⟨fun _ hm => absurd rfl hm, (fun hio => by cases hio), fun _ => Or.inr (Or.inr ⟨rfl, h.same, hbig⟩), rfl,
     Static.refl h.inv _⟩
 
 /-- an accepted decode call at the current surface against the ideal "consume the surface" -/
